@@ -3,7 +3,8 @@
 # changes to the library) apply it to /repo's working tree (never committed),
 # run the quick tier of every check, restore. Any rc!=0 is printed with its
 # signature lines; the replay files of alarms are kept under <dir>/<name>/alarms/.
-#   scripts/benign_matrix.sh /tmp/benign [name-prefix] [props]
+#   scripts/benign_matrix.sh <dir> [name-prefix] [props]      (TIER=thorough for the thorough tier;
+#   a file <dir>/<name>/props overrides the property list for that change)
 V=$(cd "$(dirname "$0")/.." && pwd)
 D=${1:?dir}; pre=$2
 props=${3:-"C01 C02 C03 C04 C05 C06 C07 C08 C09 C10 C11 C12 C13 C14 C15 C16 C17 C18 C19 C20"}
@@ -15,9 +16,9 @@ for d in $D/*/; do
   id=$(basename "$d"); [ -n "$pre" ] && [[ "$id" != $pre* ]] && continue
   [ -f "$d/patch.diff" ] || continue
   git apply "$d/patch.diff" 2>/dev/null || { echo "$id: patch does not apply"; continue; }
-  res=""
-  for p in $props; do
-    out=$(cd $V && VERIF_SEED=${VERIF_SEED:-1} ./check run $p quick 2>&1); rc=$?
+  res=""; pl=$props; [ -f "$d/props" ] && [ -n "$USE_PROPS" ] && pl=$(cat "$d/props")
+  for p in $pl; do
+    out=$(cd $V && VERIF_SEED=${VERIF_SEED:-1} ./check run $p ${TIER:-quick} 2>&1); rc=$?
     if [ $rc -ne 0 ]; then
       alarms=$((alarms+1)); res="$res $p(rc=$rc)"
       mkdir -p "$d/alarms"; echo "$out" > "$d/alarms/$p.out"
